@@ -434,6 +434,12 @@ def inline_calls(prog, fn, should_inline, max_rounds=6):
     return Fn(j, fn.crate)
 
 
+def signature(f):
+    """parameter and return types of a function as one string (used to recognise a renamed function)"""
+    args = [f.locals[i + 1]["ty"].get("s", "?") for i in range(f.arg_count)]
+    return ",".join(args) + "->" + str((f.j.get("ret") or {}).get("s", "?"))
+
+
 def callee_of(t):
     """canonical callee path of a call terminator: the resolved impl method when the
     driver could resolve the trait call, else the declared callee"""
@@ -481,6 +487,56 @@ class Prog:
         helpers = sorted(p for p, f in self.fns.items() if f.kind in ("Fn", "AssocFn") and not f.derived and p not in vocabulary)
         if not helpers:
             return []
+        # a vocabulary function that is gone while exactly one new function of the same module has its signature: a rename.
+        # The new function answers to the old name too (the rules then judge its body as they would have judged the old one).
+        self.renamed = {}
+        if isinstance(vocabulary, dict):
+            gone = [p for p in vocabulary if p not in self.fns and p.rsplit("::", 1)[0].split("::")[0] in {q.split("::")[0] for q in helpers}]
+            for old in gone:
+                mod = old.rsplit("::", 1)[0]
+                cands = [q for q in helpers if q.rsplit("::", 1)[0] == mod and signature(self.fns[q]) == vocabulary[old] and q not in self.renamed.values()]
+                if len(cands) == 1:
+                    self.renamed[old] = cands[0]
+            if self.renamed:
+                back = {v: k for k, v in self.renamed.items()}
+                # nested bodies (closures, async blocks) of a renamed function move with it
+                for new_, old_ in list(back.items()):
+                    for q in list(self.fns):
+                        if q.startswith(new_ + "::"):
+                            back[q] = old_ + q[len(new_):]
+
+                def resub(x):
+                    if isinstance(x, list):
+                        for i, y in enumerate(x):
+                            if isinstance(y, str):
+                                if y in back:
+                                    x[i] = back[y]
+                            else:
+                                resub(y)
+                    elif isinstance(x, dict):
+                        for k, y in x.items():
+                            if isinstance(y, str):
+                                if k in ("callee", "resolved", "def", "fn", "parent", "adt") and y in back:
+                                    x[k] = back[y]
+                            else:
+                                resub(y)
+                for p, f in list(self.fns.items()):
+                    resub(f.blocks)
+                    resub(f.promoted)
+                for new_, old_ in back.items():
+                    f = self.fns.pop(new_)
+                    f.path = old_
+                    f.j = dict(f.j, path=old_, renamed_from_vocabulary=new_)
+                    if f.parent in back:
+                        f.parent = back[f.parent]
+                    self.fns[old_] = f
+                self.closures_of = {}
+                for q, g in self.fns.items():
+                    if g.parent and g.parent != g.path:
+                        self.closures_of.setdefault(g.parent, []).append(q)
+                helpers = [h for h in helpers if h not in back]
+                if not helpers:
+                    return []
         hs = set(helpers)
         self.raw_fns = dict(self.fns)
         for p, f in list(self.fns.items()):
